@@ -374,7 +374,7 @@ func (H) Execute(prop string, plan any, rc *simkit.RunCtx) {
 		}
 	}
 	if p.Corrupt && p.Prim == "unpackzip" && p.Dest == 0 {
-		if !corruptUnpack(p, rc, setup(), newData) {
+		if !corruptUnpack(p, rc, setup(), newData, newState) {
 			e.cleanup()
 			return
 		}
@@ -690,7 +690,7 @@ func manyUnpack(p *FSPlan, rc *simkit.RunCtx, setup func() *fsEnv, newData []byt
 
 // corruptUnpack: an archive with one good entry and one whose compressed stream is cut off. Unpacking must fail and
 // the destination must stay absent at every instant.
-func corruptUnpack(p *FSPlan, rc *simkit.RunCtx, e *fsEnv, newData []byte) bool {
+func corruptUnpack(p *FSPlan, rc *simkit.RunCtx, e *fsEnv, newData []byte, goodState string) bool {
 	defer e.cleanup()
 	q := *p
 	q.corruptArchive = true
@@ -732,6 +732,31 @@ func corruptUnpack(p *FSPlan, rc *simkit.RunCtx, e *fsEnv, newData []byte) bool 
 		rc.Fail("C17.silent-failure", "unpacking a damaged archive reported success (unpackzip, cut-off entry)", "")
 		return false
 	}
+	// the download is repaired (the intact archive of the same version takes the place of the damaged one) and unpacked
+	// again: the destination then shows exactly the content of the intact archive
+	e2 := newEnvFor(p.Prim)
+	good := *p
+	good.corruptArchive = false
+	if _, _, err := prepareRegistry(&good, e2, newData); err != nil {
+		rc.Fail("C17.harness", "repaired archive set-up failed", err.Error())
+		e2.cleanup()
+		return false
+	}
+	intact, rerr := os.ReadFile(filepath.Join(e2.root, "pkg_v1-0-0.zip"))
+	e2.cleanup()
+	if rerr != nil || os.WriteFile(filepath.Join(e.root, "pkg_v1-0-0.zip"), intact, 0o644) != nil {
+		rc.Fail("C17.harness", "repaired archive set-up failed", fmt.Sprint(rerr))
+		return false
+	}
+	simfs.Begin(simfs.Plan{CrashAt: -1, ErrAt: -1, ShortAt: -1}, e.tmp)
+	uerr2 := res.UnpackArchive()
+	_, _, _ = simfs.End()
+	st, ok := readState(p, e)
+	if uerr2 != nil || !ok || st != goodState {
+		rc.Fail("C17.dest-fragment", "after a failed unpack of a damaged archive, unpacking the repaired archive did not publish exactly its content (unpackzip)", fmt.Sprintf("error: %v exists=%v", uerr2, ok))
+		return false
+	}
+	rc.Probe("repaired-archive-unpacked-after-failure")
 	return true
 }
 
